@@ -51,6 +51,8 @@ CONFIG = {
              "(row) a NEXUS matrix row copied under an extra / misspelt label or renamed, or one data line (row or "
              "interleave segment, any row) of a NEXUS/PHYLIP/FASTA matrix of any data type lengthened by a symbol "
              "(match character, state symbol, multistate group, further value) or shortened; "
+             "(page) a PHYLIP document followed by a further page of ntax-1..ntax+2 lines of 1..nchar+1 symbols, read "
+             "in the document's and in the flipped layout mode, into fresh and pre-populated namespaces; "
              "(soup) token sequences over each format's alphabet; (deep) Newick nesting depths 10..6000; (valid) the "
              "unmodified documents, which must parse on every route and deliver the abstract content they were "
              "written from; (atheris, thorough tier only) a coverage-guided campaign over bytes -> (reader variant, "
@@ -78,13 +80,16 @@ CONFIG = {
         "statements in between) a returned matrix may have fewer but never more than n rows - asserted for the "
         "default namespace and for caller-supplied namespaces that are empty or hold only unrelated labels, since a "
         "row label that already is a member of the namespace read into is accepted by design",
+        "PHYLIP: whatever namespace is read into (fresh, empty, unrelated taxa, own labels, namespace of a first "
+        "read), a returned matrix has exactly the declared number of rows - rows are the sequences read, never the "
+        "namespace's other taxa - each of the declared length (clean /repo raises DataParseError otherwise)",
         "the process recursion limit is the 3000 set by vp_check.py; Newick nesting beyond it is a listed known finding",
     ],
 }
 
 TOTALS = {
-    "quick": {"prefix_docs": 72, "max_len": 400, "valid": 1600, "edit": 4000, "dup": 1600, "row": 1600, "soup": 8000},
-    "thorough": {"prefix_docs": 320, "max_len": 800, "valid": 12000, "edit": 50000, "dup": 15000, "row": 10000, "soup": 30000,
+    "quick": {"prefix_docs": 72, "max_len": 400, "valid": 1600, "edit": 4000, "dup": 1600, "row": 1600, "page": 1200, "soup": 8000},
+    "thorough": {"prefix_docs": 320, "max_len": 800, "valid": 12000, "edit": 50000, "dup": 15000, "row": 10000, "page": 8000, "soup": 30000,
                  "atheris_runs": 160000},
 }
 
@@ -765,7 +770,7 @@ _ROW = re.compile(r"^(\s*)('(?:[^']|'')*'|[^\s;']+)(\s+\S.*)$")
 
 
 ROW_SYMBOLS = [".", ".", "A", "?", "-", "0", "..", ".A", "{AG}", "N.", " 9.99", " 1 2", " .", "x", "1"]
-ROW_OPS = ("extra", "misspelt", "rename", "lengthen", "lengthen", "lengthen", "shorten")
+ROW_OPS = ("extra", "misspelt", "rename", "lengthen", "lengthen", "lengthen", "shorten", "page")
 
 
 def _nexus_matrix_rows(lines):
@@ -806,6 +811,34 @@ def _resize(line, op, sym):
     return body + (";" if semi else "")
 
 
+PAGE_SYMBOLS = {"dna": "ACGT", "rna": "ACGU", "protein": "ACDEFGHIK", "standard": "0123", "continuous": None}
+
+
+def phylip_page_text(case):
+    """A PHYLIP document followed by a further page: ntax + d lines (d = -1, 0, 1, 2) of w symbols / values of the
+    document's data type each (w = the declared length, one, one less, one more), optionally behind a blank line -
+    the stray trailing lines, surplus page or short page an interleaved or concatenated file has."""
+    d = case["doc"]
+    text = d["text"]
+    m = _PHYLIP_HEADER.match(re.split(r"\r\n|\n|\r", text)[0])
+    if m is None:
+        return text
+    ntax, nchar = int(m.group(1)), int(m.group(2))
+    page = case.get("page") or {}
+    nlines = max(1, ntax + page.get("lines", 0))
+    width = {"full": nchar, "one": 1, "short": max(1, nchar - 1), "long": nchar + 1}[page.get("width", "full")]
+    pool = PAGE_SYMBOLS.get(d["kwargs"].get("data_type"), "ACGT")
+    out = text if text.endswith("\n") else text + "\n"
+    if page.get("blank"):
+        out += "\n"
+    for i in range(nlines):
+        if pool is None:
+            out += " ".join("%d.5" % ((i + j) % 7) for j in range(width)) + "\n"
+        else:
+            out += "".join(pool[(i + j) % len(pool)] for j in range(width)) + "\n"
+    return out
+
+
 def row_text(case):
     """A matrix whose rows contradict the declaration, made from a valid NEXUS / PHYLIP / FASTA document:
       extra / misspelt / rename (NEXUS): every MATRIX line that starts with the chosen row's label (one line when
@@ -819,6 +852,8 @@ def row_text(case):
     lines = text.split("\n")
     op = case["op"]
     sym = ROW_SYMBOLS[case.get("sym", 0) % len(ROW_SYMBOLS)]
+    if d["schema"] == "phylip" and op == "page":
+        return phylip_page_text(case)
     if d["schema"] != "nexus":
         if op not in ("lengthen", "shorten"):
             op = "lengthen" if op != "misspelt" else "shorten"
@@ -861,12 +896,24 @@ def row_text(case):
 
 def sub_row(ctx, case):
     """case: {"doc": slim NEXUS/PHYLIP/FASTA document, "row": int, "op": one of ROW_OPS, "sym": int,
-    "ns_mode": None|...}"""
+    "ns_mode": None|..., optional "page": {"lines", "width", "blank"} (op "page", PHYLIP), optional "flip":
+    "interleaved"|"strict" (PHYLIP: read the text through the other layout mode)}"""
     d = case["doc"]
     text = row_text(case)
+    kwargs = d["kwargs"]
+    flip = case.get("flip")
+    if d["schema"] == "phylip" and flip in ("interleaved", "strict"):
+        # the same text through the reader's other layout mode
+        kwargs = dict(kwargs)
+        kwargs[flip] = not kwargs.get(flip, False)
+        ctx.cls("row:phylip:read_with_%s_flipped" % flip)
     ctx.cls("row:%s:%s:%s:%s" % (d["schema"], d.get("matrix_type"), case["op"],
                                  "changed" if text != d["text"] else "no_matrix"))
-    run_text(ctx, text, d["schema"], d["kwargs"], d.get("matrix_type"), ns_for(d, case.get("ns_mode")))
+    if case["op"] == "page" and d["schema"] == "phylip":
+        ctx.cls("page:%s:lines%+d:%s:ns=%s" % ("interleaved" if kwargs.get("interleaved") else "sequential",
+                                             (case.get("page") or {}).get("lines", 0),
+                                             (case.get("page") or {}).get("width", "full"), case.get("ns_mode")))
+    run_text(ctx, text, d["schema"], kwargs, d.get("matrix_type"), ns_for(d, case.get("ns_mode")))
     if text != d["text"]:
         ctx.nontrivial(canon(d["schema"], d["kwargs"], text))
         ctx.sample("row:%s" % case["op"], {"text": text})
@@ -898,7 +945,7 @@ def sub_deep(ctx, case):
     ctx.nontrivial(["deep", case])
 
 
-SUBCHECKS = {"valid": sub_valid, "prefix": sub_prefix, "edit": sub_edit, "dup": sub_dup, "row": sub_row,
+SUBCHECKS = {"valid": sub_valid, "prefix": sub_prefix, "edit": sub_edit, "dup": sub_dup, "row": sub_row, "page": sub_row,
              "soup": sub_soup,
              "deep": sub_deep}
 
@@ -1143,6 +1190,17 @@ def run(ctx):
         "row": st.integers(0, 50), "op": st.sampled_from(ROW_OPS), "sym": st.integers(0, len(ROW_SYMBOLS) - 1),
         "ns_mode": st.sampled_from((None, "empty", "empty", "unrelated", "own", "reread"))})
     runner.run_given(ctx, "row", row_cases, sub_row, per(tot["row"]))
+    # (2d) PHYLIP: further pages / stray trailing lines, both layout modes, fresh and pre-populated namespaces
+    # (the small decisions first, the document last: late draws of a long example come out minimal too often)
+    page_cases = st.fixed_dictionaries({
+        "op": st.just("page"), "row": st.just(0), "sym": st.just(0),
+        "page": st.fixed_dictionaries({"lines": st.sampled_from([0, 0, 0, -1, 1, 2]),
+                                       "width": st.sampled_from(["full", "full", "full", "one", "short", "long"]),
+                                       "blank": st.booleans()}),
+        "flip": st.sampled_from([None, None, "interleaved", "strict"]),
+        "ns_mode": st.sampled_from((None, "unrelated", "unrelated", "own", "empty", "reread")),
+        "doc": docs.phylip_docs(max_taxa=4, max_chars=6).map(slim)})
+    runner.run_given(ctx, "page", page_cases, sub_row, per(tot["page"]))
 
     # (3) token soup
     runner.run_given(ctx, "soup", soup_cases(), sub_soup, per(tot["soup"]))
